@@ -316,6 +316,75 @@ pub fn prop(tier: Tier, seed: u64) -> Prop {
     );
 
     // ------------------------------------------------------------------------------------------
+    // (2a) kernel sweep in fenced memory: every residue of kernel length / row bytes / line count
+    //      (the SIMD main loops, remainders and tails) with the source rows, the destination, the
+    //      coefficient vectors and the scratch images each ending at a guard page
+    // ------------------------------------------------------------------------------------------
+    let (ni, no): (u64, u64) = tier.pick((40, 12), (72, 24));
+    let kalgs = [Alg::Conv(F::Box), Alg::Conv(F::Bilinear), Alg::Conv(F::CatmullRom), Alg::Conv(F::Lanczos3), Alg::Interp(F::Lanczos3), Alg::SS(F::Hamming, 2)];
+    let dimsk = vec![ni, no, 6, kalgs.len() as u64, 2];
+    let (dk, bk) = (dimsk.clone(), bes.clone());
+    p.spaces.push(
+        Space::new("kernel sweep in fenced memory: n_in x n_out x crop x 6 algorithms x orientation (rotating pixel types, back-ends, line counts 1..9, containers)", product(&dimsk), move |idx, ctx| {
+            let mut d = [0usize; 5];
+            decode(idx, &dk, &mut d);
+            let (n_in, n_out) = (d[0] as u32 + 1, d[1] as u32 + 1);
+            let crops = crop1_small(n_in);
+            if d[2] >= crops.len() {
+                return;
+            }
+            let (crop, alg, horiz) = (crops[d[2]], kalgs[d[3]], d[4] == 0);
+            let k = idx as usize;
+            let lines = (k / 7 % 9) as u32 + 1;
+            ctx.sample(|| json!({"n_in": n_in, "n_out": n_out, "crop": [crop.start, crop.len], "alg": format!("{:?}", alg), "orientation": if horiz { "horizontal" } else { "vertical" }, "lines": lines}));
+            if ctx.describe_only {
+                return;
+            }
+            // two pixel types per case; over the space every type meets every (n_in, n_out, alg) residue class
+            for (pi, pt) in [ALL_PT[k % 13], ALL_PT[(k / 13 + 6) % 13]].into_iter().enumerate() {
+                let (sw, sh, dw, dh) = if horiz { (n_in, lines, n_out, lines) } else { (lines, n_in, lines, n_out) };
+                let src = content(pt, sw, sh, seed ^ idx ^ 77);
+                let mut o = Opts::new(alg);
+                if horiz {
+                    o.cx = Some(crop);
+                } else {
+                    o.cy = Some(crop);
+                }
+                o.alpha = pt.has_alpha() && k % 3 == 0;
+                let fo = o.to_fir(sw, sh);
+                for (bi, &be) in bk.iter().enumerate() {
+                    if pt.ck() == CK::I32 && bi > 0 {
+                        continue;
+                    }
+                    let typed = TYPED_PTS.contains(&pt) && (k + bi) % 2 == 0;
+                    let (sk, dk2) = if typed { (SrcK::TRef, DstK::TSlice) } else if (k + bi) % 3 == 0 { (SrcK::CropOfRef, DstK::CropMutOfImg) } else { (SrcK::RefNew, DstK::ImgSlice) };
+                    let r = guarded(|| {
+                        let mut rz = new_resizer(be);
+                        let mut op = OpSpec::Resize(&mut rz, fo);
+                        fenced(|| run_one(&mut op, typed, sk, dk2, &src, pt, dw, dh, PLACES[(k + 1) % PLACES.len()], PLACES[(k + 5) % PLACES.len()], 0, Mem::FencedEnd, 0x5A))
+                    });
+                    ctx.ops += 1;
+                    match r {
+                        Ok((out, _)) => {
+                            if let Err(e) = &out.result {
+                                ctx.violation("C03|kernel sweep|valid call failed", || json!({"err": e, "n_in": n_in, "n_out": n_out, "crop": [crop.start, crop.len], "alg": format!("{:?}", alg), "pixel": format!("{:?}", pt)}));
+                            }
+                            ctx.outcome(fnv(out.rect.bytes()));
+                        }
+                        Err((loc, msg)) => ctx.violation(format!("C03|kernel sweep|panic|{}|{}", loc, panic_class(&msg)), || {
+                            json!({"n_in": n_in, "n_out": n_out, "crop": [crop.start, crop.len], "alg": format!("{:?}", alg), "pixel": format!("{:?}", pt), "backend": format!("{:?}", be), "lines": lines, "horizontal": horiz, "message": msg})
+                        }),
+                    }
+                    ctx.class(mix(mix(pt.idx() as u64 + 3000, be as u64), mix((n_in % 16) as u64 * 16 + (n_out % 8) as u64, (lines % 4) as u64 * 8 + d[3] as u64)));
+                    let _ = pi;
+                }
+            }
+            ctx.nontrivial += 1;
+        })
+        .isolated(),
+    );
+
+    // ------------------------------------------------------------------------------------------
     // (2b) alpha / mapper / conversion operations and constructors on fenced containers
     // ------------------------------------------------------------------------------------------
     let dims3 = vec![smax, smax, 9, 13];
